@@ -48,21 +48,21 @@ EXEMPT = {
     (P + 'rr::rdata::null::NULL::with', 'panic', 'panicking::panic'): (1, 'debug_assert!(!is_empty): NULL::read_data calls with() only under !decoder.is_empty()', 'null-with'),
     (P + 'op::message::Message::read_records', 'unwrap', 'Option::unwrap'): (1, 'Record::map(|d| match d {TSIG(t) => Some(t), _ => None}).unwrap() inside the `RData::TSIG(_)` arm', 'tsig-arm'),
     (P + 'rr::domain::name::Name::to_ascii', 'unwrap', 'Result::expect'): (1, 'fmt::Write into a String cannot fail (not on the decode path proper: Display helper reached through error construction)', None),
-    (P + 'rr::domain::name::Name::write_labels::{closure#0}', 'unwrap', 'Result::unwrap'): (1, 'Label::from_raw_bytes on a label taken from an existing Name (1..=63 by C04.G1)', None),
+    (P + 'rr::domain::name::Name::write_labels::{closure@map#0}', 'unwrap', 'Result::unwrap'): (1, 'Label::from_raw_bytes on a label taken from an existing Name (1..=63 by C04.G1)', None),
     (D + 'clone', 'index', 'index'): (1, 'buffer[index_at..]: read_inner (the only decode caller) passes a pointer verified < name_start <= buffer.len()', 'clone-callers'),
     (D + 'index', 'assert:Overflow(Sub)', None): (1, 'buffer.len() - remaining.len(): remaining is always a suffix of buffer (only set from split_at / index ranges of buffer)', 'remaining-writers'),
     (D + 'read_slice', 'slice-op', 'slice::split_at'): (1, 'guarded by len <= remaining.len()', 'read_slice-guard'),
     (D + 'slice_from', 'index', 'index'): (1, 'buffer[index..self.index()] under index <= self.index() <= buffer.len()', 'slice_from-guard'),
     (D + 'split_off', 'assert:Overflow(Add)', None): (1, 'index()+length after split_at_checked(length) succeeded: length <= remaining.len() <= isize::MAX', 'split_off-guard'),
     (D + 'split_off', 'index', 'index'): (1, 'buffer[..index()+length] after split_at_checked(length) succeeded on remaining, so index()+length <= buffer.len()', 'split_off-guard'),
-    (D + 'read_u16::{closure#0}', 'assert:BoundsCheck', None): (2, 'indices 0,1 of the slice returned by read_slice(2)', 'read_slice-const'),
-    (D + 'read_i32::{closure#0}', 'assert:BoundsCheck', None): (4, 'indices 0..3 of the slice returned by read_slice(4)', 'read_slice-const'),
-    (D + 'read_u32::{closure#0}', 'assert:BoundsCheck', None): (4, 'indices 0..3 of the slice returned by read_slice(4)', 'read_slice-const'),
-    (D + 'read_i32::{closure#0}', 'panic', 'panicking::panic'): (1, 'assert!(s.len() == 4) on the slice returned by read_slice(4)', 'read_slice-const'),
-    (D + 'read_u32::{closure#0}', 'panic', 'panicking::panic'): (1, 'assert!(s.len() == 4) on the slice returned by read_slice(4)', 'read_slice-const'),
+    (D + 'read_u16::{closure@map#0}', 'assert:BoundsCheck', None): (2, 'indices 0,1 of the slice returned by read_slice(2)', 'read_slice-const'),
+    (D + 'read_i32::{closure@map#0}', 'assert:BoundsCheck', None): (4, 'indices 0..3 of the slice returned by read_slice(4)', 'read_slice-const'),
+    (D + 'read_u32::{closure@map#0}', 'assert:BoundsCheck', None): (4, 'indices 0..3 of the slice returned by read_slice(4)', 'read_slice-const'),
+    (D + 'read_i32::{closure@map#0}', 'panic', 'panicking::panic'): (1, 'assert!(s.len() == 4) on the slice returned by read_slice(4)', 'read_slice-const'),
+    (D + 'read_u32::{closure@map#0}', 'panic', 'panicking::panic'): (1, 'assert!(s.len() == 4) on the slice returned by read_slice(4)', 'read_slice-const'),
     (P + 'rr::record_data::RData::read', 'assert:Overflow(Sub)', None): (1, 'decoder.index() - start_idx: the index only grows between the two reads of the same decoder', None),
-    ("<hickory_proto::rr::rdata::tsig::TSIG as hickory_proto::rr::RecordDataDecodable<'r>>::read_data::{closure#2}", 'assert:Overflow(Sub)', None): (1, 'end_idx - decoder.index() in an error-message closure: the decoder was split_off to the RDATA, index <= end_idx', None),
-    ("<hickory_proto::rr::rdata::tsig::TSIG as hickory_proto::rr::RecordDataDecodable<'r>>::read_data::{closure#4}", 'assert:Overflow(Sub)', None): (1, 'same as closure#2', None),
+    ("<hickory_proto::rr::rdata::tsig::TSIG as hickory_proto::rr::RecordDataDecodable<'r>>::read_data::{closure@map_err#0}", 'assert:Overflow(Sub)', None): (1, 'end_idx - decoder.index() in an error-message closure: the decoder was split_off to the RDATA, index <= end_idx', None),
+    ("<hickory_proto::rr::rdata::tsig::TSIG as hickory_proto::rr::RecordDataDecodable<'r>>::read_data::{closure@map_err#1}", 'assert:Overflow(Sub)', None): (1, 'same as closure#2', None),
 }
 
 
@@ -186,7 +186,7 @@ def run(cx):
     if f:
         cl = cx.calls(f, r'BinDecoder::clone$')
         cx.check('C01.G1', len(cl) == 1, f.path, 'calls', 'single-pointer-chase', str(len(cl)))
-        c4 = cx.fn('C01.G1', P + 'rr::domain::name::read_inner::{closure#4}')
+        c4 = cx.fn('C01.G1', P + 'rr::domain::name::read_inner::{closure@verify_unwrap#1}')
         vloc = None
         if c4:
             t = cx.true_returns(c4)
@@ -202,7 +202,7 @@ def run(cx):
                         ds = pf.defs().get(l, [])
                         if len(ds) == 1 and ds[0][2] == 'assign' and ds[0][3][0] == 'ref' and isinstance(ds[0][3][1], int):
                             vloc = ds[0][3][1]
-        c3 = cx.fn('C01.G1', P + 'rr::domain::name::read_inner::{closure#3}')
+        c3 = cx.fn('C01.G1', P + 'rr::domain::name::read_inner::{closure@map#0}')
         if c3:
             r = cx.returns(c3, r'.')
             cx.check('C01.G1', len(r) == 1 and r[0].term == 'bitand(arg2,16383)', c3.path, 'ret', 'pointer-offset-is-low-14-bits', '; '.join(s.term for s in r))
@@ -216,7 +216,7 @@ def run(cx):
                 if d[2] == 'assign' and shorten(f.term_rvalue(d[3], 0)).startswith('BinDecoder::index('):
                     redefs.add(d[0])
             mk = [Site(f, bi, si, 'closure', 'closure#4') for bi, b in enumerate(f.blocks) for si, st in enumerate(b['s'])
-                  if st[0] == '=' and st[2][0] == 'closure' and st[2][1].endswith('read_inner::{closure#4}')]
+                  if st[0] == '=' and st[2][0] == 'closure' and core.strip_generics(st[2][1]).endswith('read_inner::{closure@verify_unwrap#1}')]
             cx._number(mk)
             cx.check('C01.G1', len(mk) == 1 and len(redefs) >= 2, f.path, 'sites', 'bound-definitions', f'closure sites {len(mk)}, index() definitions of the bound {len(redefs)}')
             cx.must_pass('C01.G1', f, mk, via_blocks=redefs, start_blocks=[f.succs(cl[0].bb)[0]], what='bound-re-established-from-new-decoder-after-each-hop')
@@ -228,7 +228,7 @@ def run(cx):
         # G2 label <= 63
         en = cx.calls(f, r'Name::extend_name$')
         cx.guard('C01.G2', en, {'label-verified': r'^ok\(Result::map_err\(Restrict::verify_unwrap\(try\(BinDecoder::read_character_data\('}, expect=1, fn=f)
-        c0 = cx.fn('C01.G2', P + 'rr::domain::name::read_inner::{closure#0}')
+        c0 = cx.fn('C01.G2', P + 'rr::domain::name::read_inner::{closure@verify_unwrap#0}')
         if c0:
             t = cx.true_returns(c0)
             cx.check('C01.G2', len(t) == 1 and t[0].term == 'le(slice::len(arg2),63)', c0.path, 'ret', 'label-length-le-63', '; '.join(s.term for s in t))
@@ -247,7 +247,7 @@ def run(cx):
                                 'rdlength-nonzero': r'^!eq\(0,'}, expect=1, fn=r)
         for s in rd:
             cx.check('C01.G4', bool(re.search(r'^RData::read\(try\(BinDecoder::split_off\(arg1,cast<usize>\(', s.term)), r.path, s.key(), 'rdata-decoder-is-split_off(rdlength)', s.term[:120], s.loc)
-    for cl in cx.prog.find(r"Record as hickory_proto::serialize::binary::BinDecodable<'r>>::read::\{closure#\d+\}$"):
+    for cl in cx.prog.find(r"Record as hickory_proto::serialize::binary::BinDecodable<'r>>::read::\{closure[^}]*\}$"):
         t = cx.true_returns(cl)
         if t and any(re.match(r'^(le|lt)\(', s.term) for s in t):
             cx.check('C01.G4', len(t) == 1 and bool(re.search(r'^le\(cast<usize>\(arg2\),BinDecoder::len\(\^+arg1\)\)$', t[0].term)), cl.path, 'ret', 'rdlength-le-remaining', t[0].term)
@@ -270,10 +270,10 @@ def exemption_checks(cx):
     # read_slice(N).map(closure): indices used by the closure are < N
     for nm, n in (('read_u16', 2), ('read_i32', 4), ('read_u32', 4)):
         f = cx.fn('C01.Z1', D + nm)
-        c = cx.fn('C01.Z1', D + nm + '::{closure#0}')
+        c = cx.fn('C01.Z1', D + nm + '::{closure@map#0}')
         if f and c:
             mp = cx.calls(f, r'Restrict<T>::map$|Restrict::map$')
-            ok = len(mp) == 1 and bool(re.search(rf'^Restrict::map\(try\(BinDecoder::read_slice\(arg1,{n}\)\)@Continue\.0,closure:BinDecoder::{nm}::\{{closure#0\}}\)$', mp[0].term))
+            ok = len(mp) == 1 and bool(re.search(rf'^Restrict::map\(try\(BinDecoder::read_slice\(arg1,{n}\)\)@Continue\.0,closure:BinDecoder::{nm}::\{{closure@map#0\}}\)$', mp[0].term))
             idx = []
             for b in c.blocks:
                 if b['t'][0] == 'assert' and b['t'][3] == 'BoundsCheck':
